@@ -205,7 +205,21 @@ static std::string handle(const std::string& line)
             const long long ns = std::chrono::duration_cast<std::chrono::nanoseconds>(b.fullDate().date().time_since_epoch()).count();
             if (ns != back * 1000000000LL)
                 return "DT " + pv::hex(w) + " fraction";
-            return "DT " + pv::hex(w) + " " + std::to_string(back) + " " + pv::hex(write(b));
+            // ... and where the library parses it: by the request parser, out of an exact-size buffer (nothing terminates the value)
+            std::string via = "notdone";
+            {
+                std::string msg = "GET / HTTP/1.1\r\ndAtE: " + w + "\r\n\r\n";
+                std::unique_ptr<char[]> buf(new char[msg.size()]);
+                memcpy(buf.get(), msg.data(), msg.size());
+                RequestParser p(1 << 20);
+                p.feed(buf.get(), msg.size());
+                if (p.parse() == Private::State::Done)
+                {
+                    auto d = p.request.headers().tryGet<Header::Date>();
+                    via    = d ? std::to_string(std::chrono::duration_cast<std::chrono::seconds>(d->fullDate().date().time_since_epoch()).count()) : std::string("absent");
+                }
+            }
+            return "DT " + pv::hex(w) + " " + std::to_string(back) + " " + pv::hex(write(b)) + " via=" + via;
         }
         if (t[0] == "HO" && t.size() == 3)
         {
